@@ -34,7 +34,8 @@ Statements (rest = the statements that follow, k = what falling off the end mean
   v = X.n (X a child node) -> match attr_n X with Some v => rest | None => SRaise XAttribute end
   [v] = nodes -> match nodes with [v] => rest | _ => SRaise XValue end
   if c: A else: B -> if c then (A; rest) else (B; rest) (rest is duplicated; a statically decided c
-      keeps one branch only); `if CALL cmp e:` first binds CALL to a fresh name
+      keeps one branch only); `if CALL cmp e:` first binds CALL to a fresh name; `if a and b:` / `if a or b:`
+      with a division in b is first rewritten to nested ifs (b is evaluated only when a allows)
   assert c -> if negb c then SAssert else rest;  pass -> rest
   raise OverflowError(..) / ZeroDivisionError / NotImplementedError -> SRaise X.. (arguments dropped)
   for v in L: B (top level of the body only; no break/continue/else) -> Fixpoint <f>_loop over L whose
@@ -286,6 +287,13 @@ class Fn:
                 self.internal.add(v.id)
                 new = [ast.Assign([v], t.left), ast.If(ast.Compare(v, t.ops, t.comparators), s.body, s.orelse)]
                 return self.tr([ast.copy_location(n, s) for n in new] + rest, env, k)
+            if isinstance(t, ast.BoolOp) and any(isinstance(n, ast.BinOp) and isinstance(n.op, (ast.FloorDiv, ast.Mod))
+                                                 for v in t.values[1:] for n in ast.walk(v)):
+                # a division evaluated only if the operands before it allow: nest the tests
+                a, b = t.values[0], t.values[1] if len(t.values) == 2 else ast.BoolOp(t.op, t.values[1:])
+                inner = ast.copy_location(ast.If(b, s.body, s.orelse), s)
+                new = ast.If(a, [inner], s.orelse) if isinstance(t.op, ast.And) else ast.If(a, s.body, [inner])
+                return self.tr([ast.copy_location(new, s)] + rest, env, k)
             c, g = self.truth(t, env), self.take()
             if c == 'true':
                 return self.guard(g, self.tr(s.body + rest, env, k))
@@ -398,6 +406,18 @@ def translate(prefix, vk, fdef):
 
 
 def main(emit):
+    try:
+        text = generate()
+    except Exception as exc:
+        # fail closed: no stale translation stays behind.  The file below compiles (so its .vo is replaced) but defines
+        # none of the functions: no source-tie lemma compiles against it
+        why = ('%s: %s' % (type(exc).__name__, exc)).replace('(*', '( *').replace('*)', '* )')
+        emit('IntExprSrc.v', '(* TRANSLATION FAILED: %s *)\nDefinition source_translation_failed := tt.\n' % why)
+        raise
+    emit('IntExprSrc.v', text)
+
+
+def generate():
     src = open(os.path.join(REPO, 'lib', 'intexpr.py'), encoding='utf-8').read()
     tree = ast.parse(src)
     FUNCS.clear()
@@ -425,7 +445,7 @@ def main(emit):
     want.update({(p, m): 1 for p, ms in REQUIRED.items() for m in ms.split()})
     if seen != want:
         raise Unsupported('set of methods changed: %s' % sorted(set(seen.items()) ^ set(want.items())))
-    emit('IntExprSrc.v', '\n'.join(out))
+    return '\n'.join(out)
 
 
 if __name__ == '__main__':
